@@ -5,6 +5,9 @@ HERE = os.path.dirname(os.path.dirname(os.path.abspath(__file__)))
 ALL = ["C%02d" % i for i in range(1, 21)]
 
 CHECKS = {
+ "C16": dict(cat="exploration", tech="model-based history monitor at the store boundary (Klong d,k,v / d?k; TableStorage.set/get) + accounting/heap/disk invariant monitor evaluated under the cache's own lock after every operation",
+   text="Generated histories (set, get, get of a never-set key, reopen on the same directory, unload, oversize value) over flat and nested keys, values of every picklable kind and three cache-limit classes drive the real key-value store through the Klong operators and the real table store through its API; every get is compared with a dict model (table store: documented merge, existing rows win) and after every operation the accounting invariants (usage == recorded claims == real size of held entries, 0 <= usage <= limit, heap names cached entries) and the on-disk contents are checked. Held on the histories observed.",
+   note="single client thread (C18 covers concurrency); keys never prefix one another; limits chosen so that one / two / all entries fit.", ref="DESIGN.md §4 C16"),
  "C15": dict(cat="exploration", tech="trace-specification checker (rules R1-R7) over (virtual time, tick, .timerc) events of the real .timer/.timerc running on a real asyncio loop with a scripted virtual clock and dispatch latencies",
    text="Generated callback scripts (duration relative to the interval, return value, actions cancel-self / cancel-other / redefine / raise) x intervals {0,1,2,5} x dyadic and non-dyadic start times x scripted dispatch latencies (on the deadline, inside the clock resolution before it, later by less/more than an interval) x external cancellations drive the real timer code; the recorded trace is checked for early ticks, double ticks per boundary, overlap, ticks after stop, .timerc return values, stale callback definitions and bounded progress. Liveness is restated as bounded progress up to a virtual horizon.",
    note="asyncio SelectorEventLoop dispatch semantics; virtual clock resolution equals the monotonic clock's; behaviour after a raising callback is only checked for R1-R4.", ref="DESIGN.md §4 C15"),
